@@ -367,6 +367,10 @@ def pipe_random_scripts(rng, n, maxlen, late):
     pipes = [p for p in pipes if p[0]["op"] != "unnest_prep"]
     if not late:
         pipes = [p for p in pipes if timegb not in p]
+    # pipelines with an event-time buffer behind a stateful stage are exercised by the model's scripts only: the random generator gives every record its own
+    # event time (zero or not), so a row's retraction may carry another time than its addition, and a buffer that sorts by event time then reorders the pair -
+    # a property of that input universe, not of the pipeline
+    pipes = [p for p in pipes if not any(st["op"] == "etbuf" for st in p[1:])]
     for _ in range(n):
         out.append({"cfg": {"op": "pipe", "stages": rng.choice(pipes)}, "in": random_script(rng, rows, maxlen, [0, 1, 2, 3, 4], max_wm=4, late=late)})
     return out
